@@ -269,10 +269,20 @@ class GroupTrigger(Monitor):
                        if not self.in_group_atoms(m, mset))
         live = tuple(m for m in starts
                      if m in pool and pool[m].state.status in ACTIVE)
+        # not judged for liveness (see the assumptions of C28):
+        # --flow=none: group-start members active in a flow are skipped by
+        #   cylc with a warning, and a no-flow task does not flow on, so
+        #   members with in-group prerequisites cannot follow;
+        # --flow=new/N: a member that is active in another flow is not
+        #   re-run, the triggered flow merges into it.
         ignored = ()
         if cmd['flow'] == 'none':
-            ignored = tuple(m for m in starts
-                            if m in pool and pool[m].flow_nums)
+            ignored = tuple(
+                m for m in members
+                if m not in starts or (m in pool and pool[m].flow_nums))
+        elif cmd['flow'] != 'all':
+            ignored = tuple(
+                m for m in members if m not in starts and m in pool)
         base = {}
         for m in members:
             nums = [num for (p, n, num) in w.env.jobs
@@ -358,7 +368,7 @@ class GroupTrigger(Monitor):
             return
         m = (it.tdef.name, int(str(it.point)))
         trig = self.latest(m)
-        if trig is None or m in trig['starts']:
+        if trig is None or m in trig['starts'] or m in trig['ignored']:
             return
         if trig['subs'].get(m):
             return      # already ran after the trigger: a later natural run
